@@ -73,6 +73,10 @@ def run(ctx):
     evals = nontriv = 0
     for op, args in calls:
         reply = b'"x"\r\nOK\r\n' if op in ("listscripts", "capability") else (b"{1}\r\nx\r\nOK\r\n" if op == "getscript" else b"OK\r\n")
+        # whatever the server answers — yes, no, "try later", a quota — the call has put ONE command on the wire
+        if evals % 5 in (1, 3) and op != "capability":
+            reply = [b"NO\r\n", b'NO (TRYLATER) "busy"\r\n', b"NO (TRYLATER)\r\n", b'NO (QUOTA/MAXSIZE) "too big"\r\n', b'NO (NONEXISTENT) {4}\r\ngone\r\n',
+                     b'NO (TRYLATER) {5}\r\nlater\r\n'][(evals // 5) % 6]
         s = msref.Session()
         reqs = ["c op=new", msref.req_connect(ms_cases.GREETING + ms_cases.AUTH_OK, [], "user", "pw")]
         outs = ["ok", s.connect(ms_cases.GREETING + ms_cases.AUTH_OK, [], "user", "pw")]
